@@ -109,6 +109,12 @@ StableUnderReaders == [][readers # {} => table' = table]_vars
 Prefixes == {SubSeq(table, 1, n) : n \in 0..Len(table)}
 SeesCompleted == \A p \in D : pc[p] \in {"inh", "ret", "unl"} =>
                     \E n \in atcall[p]..Len(table) : sawhid[p] = Dispatch(SubSeq(table, 1, n), cur[p].msg, cur[p].short)
+\* the lock protocol's inductive invariant (spec/MuxLockInd.tla proves it inductive, for any number of calls, on the
+\* projection of this module onto pc, readers, wmutex, updating; TLC checks it here for the bounded configurations)
+LockInd == /\ readers = {p \in D : pc[p] \in {"locked", "inh", "ret"}}
+           /\ \A r \in R : (pc[r] \in {"announced", "holding", "updated"}) <=> (wmutex = r)
+           /\ updating <=> (\E r \in R : pc[r] = "holding")
+           /\ \A r \in R : pc[r] \in {"holding", "updated"} => readers = {}
 \* every holder of the read lock is inside a dispatch (so every registration eventually gets the lock)
 ReadersAreRunning == \A p \in readers : pc[p] \in {"locked", "inh", "ret"}
 \* what the code does NOT guarantee (sensitivity: must be violated): a dispatcher is never kept waiting while
